@@ -5,7 +5,7 @@ PID_ONLY = ["Puback", "Pubrec", "Pubrel", "Pubcomp", "Unsuback"]
 ACKS = ["Puback", "Pubrec", "Pubrel", "Pubcomp"]
 # properties whose decode/encode reads pointers back from a Vec buffer are only usable where the
 # packet has no length arithmetic on top of it (see DESIGN: user property limitation)
-USER_OK = {"Connect", "Will", "Connack", "Puback", "Pubrec", "Pubrel", "Pubcomp", "Disconnect", "Auth"}
+USER_OK = set(G.ALLOWED)   # every property list may carry user properties
 
 
 def plen(pid, k=1):
@@ -13,7 +13,7 @@ def plen(pid, k=1):
     if wt in ("str", "bin"):
         return k
     if wt == "pair":
-        return (k, k)
+        return (k, k + 1)
     if wt == "varint":
         return 1
     if pid == 0x01:
@@ -129,6 +129,7 @@ def v5_shapes(tier):
     for pl in singles("Disconnect"):
         S.append(G.v5_disconnect("long", pl))
     S.append(G.v5_auth("empty"))
+    S.append(G.v5_auth("code"))
     S.append(G.v5_auth("long", ()))
     for pl in singles("Auth"):
         S.append(G.v5_auth("long", pl))
@@ -152,6 +153,10 @@ def v5_shapes(tier):
     S.append(G.v5_publish(0, 1, 1, [(0x23, None), (0x23, None)]))
     S.append(G.v5_publish(0, 1, 1, [(0x0B, 1), (0x0B, 2)]))
     S.append(G.v5_subscribe((1,), [(0x1F, 1)]))
+    S.append(G.v5_subscribe((1,), [(0x0B, 5)], pd=-1))
+    S.append(G.v5_unsubscribe((1,), [(0x26, (1, 2))], pd=-1))
+    S.append(G.v5_unsubscribe((2,), [(0x26, (1, 1)), (0x26, (2, 0))]))
+    S.append(G.v5_publish(1, 1, 2, [(0x26, (2, 1)), (0x23, None)]))
     S.append(G.v5_unsubscribe((1,), [(0x1F, 1)]))
     S.append(G.v5_codes("Suback", 1, [(0x0B, 1)]))
     S.append(G.v5_disconnect("long", [(0x13, None)]))
@@ -177,8 +182,7 @@ def v5_shapes(tier):
     #  * SUBACK/UNSUBACK with a reason string: solver returns UNKNOWN for unreachable-code checks
     #  * will + user property: > 8 GB
     import re as _re
-    drop = _re.compile(r"^(publish_q0_t1_p1_x(11|23_23|0bv1_0bv2)|connect_f06_c1_w1_1_x(11|02_02|01|26l1_1)|"
-                       r"(suback|unsuback)_1_x1fl1|publish_q0_t1_p0_x01)$")
+    drop = _re.compile(r"^(publish_q0_t1_p0_x01)$")
     S = [s for s in S if not drop.match(s.name)]
     # de-duplicate by name
     seen = set()
